@@ -689,8 +689,14 @@ impl Logger {
     ///
     /// Several variants of [`FlexiLoggerError`] can occur.
     pub fn start(self) -> Result<LoggerHandle, FlexiLoggerError> {
+        // building sets the global max level; if this logger cannot be installed, the
+        // logger that is installed keeps working with the level it had
+        let previous_max_level = log::max_level();
         let (boxed_logger, handle) = self.build()?;
-        log::set_boxed_logger(boxed_logger)?;
+        if let Err(e) = log::set_boxed_logger(boxed_logger) {
+            log::set_max_level(previous_max_level);
+            return Err(e.into());
+        }
         Ok(handle)
     }
 
@@ -858,8 +864,12 @@ impl Logger {
         self,
         specfile: P,
     ) -> Result<LoggerHandle, FlexiLoggerError> {
+        let previous_max_level = log::max_level();
         let (boxed_logger, handle) = self.build_with_specfile(specfile)?;
-        log::set_boxed_logger(boxed_logger)?;
+        if let Err(e) = log::set_boxed_logger(boxed_logger) {
+            log::set_max_level(previous_max_level);
+            return Err(e.into());
+        }
         Ok(handle)
     }
 
